@@ -4,7 +4,7 @@ From Coq Require Export List NArith ZArith Bool.
 Export ListNotations.
 Open Scope N_scope.
 
-Definition byte := N.
+Notation byte := N (only parsing).
 Definition byte_ok (b : byte) : Prop := b < 256.
 Definition bytes_ok (l : list byte) : Prop := Forall byte_ok l.
 Definition byte_okb (b : byte) : bool := b <? 256.
